@@ -50,16 +50,19 @@ type c17AdSink struct {
 	hold      chan struct{} // non-nil: Flush waits on it
 	inFlush   bool
 	closeCall bool
-	accepts   int
+	accepts   int // Accept calls completed
+	ready     bool
 }
 
+// add appends an event; the caller holds ad.mu
 func (ad *c17Adapter) add(code, a, b int64) {
 	ad.events = append(ad.events, code, a, b)
 	ad.cond.Broadcast()
 }
 
 // call runs fn (a call into the ReloadableOrchestrator / ReloadableSink) as pseudo goroutine t, recovers a
-// panic and copies what the downstream doubles observed meanwhile
+// panic and copies what the downstream doubles observed meanwhile.  The caller must NOT hold ad.mu: a call
+// that blocks inside the orchestrator must not block the harness (whose waits all have deadlines).
 func (ad *c17Adapter) call(t int, opKind int, fn func()) (panicked bool) {
 	sc := ad.sc
 	id := c17Goid()
@@ -70,6 +73,8 @@ func (ad *c17Adapter) call(t int, opKind int, fn func()) (panicked bool) {
 		r := recover()
 		sc.mu.Lock()
 		delete(sc.byGoid, id)
+		ad.mu.Lock()
+		defer ad.mu.Unlock()
 		newObs := append([]c17Obs{}, sc.log[ad.seen:]...)
 		ad.seen = len(sc.log)
 		sc.mu.Unlock()
@@ -105,7 +110,6 @@ func (ad *c17Adapter) call(t int, opKind int, fn func()) (panicked bool) {
 
 func (ad *c17Adapter) NewSink(clientAddress string, clientNumber base.ClientNumber) base.MessageReceiverSink {
 	ad.mu.Lock()
-	defer ad.mu.Unlock()
 	t := len(ad.sinks)
 	n, ok := ad.fdmap[int(clientNumber)]
 	if !ok {
@@ -115,27 +119,37 @@ func (ad *c17Adapter) NewSink(clientAddress string, clientNumber base.ClientNumb
 	s := &c17AdSink{ad: ad, t: t, num: n}
 	ad.sinks = append(ad.sinks, s)
 	ad.add(1, int64(t), int64(n))
-	if ad.call(t, 1, func() { s.rs = ad.sc.env.orc.NewSink(fmt.Sprintf("c%d", t), clientNumber) }) {
-		s.dead = true
-	}
+	ad.mu.Unlock()
+	var rs base.BufferReceiverSink
+	dead := ad.call(t, 1, func() { rs = ad.sc.env.orc.NewSink(fmt.Sprintf("c%d", t), clientNumber) })
+	ad.mu.Lock()
+	s.rs, s.dead = rs, dead
+	s.ready = true
+	ad.cond.Broadcast()
+	ad.mu.Unlock()
 	return s
 }
 
 func (s *c17AdSink) Accept(message []byte) {
 	ad := s.ad
 	ad.mu.Lock()
-	defer ad.mu.Unlock()
-	s.accepts++
 	if s.dead {
+		s.accepts++
 		ad.cond.Broadcast()
+		ad.mu.Unlock()
 		return
 	}
 	rec := &base.LogRecord{RawLength: int(ad.next)}
 	ad.next++
 	ad.add(2, int64(s.t), 1)
-	if ad.call(s.t, 2, func() { s.rs.Accept([]*base.LogRecord{rec}) }) {
-		s.dead = true
-	}
+	rs := s.rs
+	ad.mu.Unlock()
+	dead := ad.call(s.t, 2, func() { rs.Accept([]*base.LogRecord{rec}) })
+	ad.mu.Lock()
+	s.dead = s.dead || dead
+	s.accepts++
+	ad.cond.Broadcast()
+	ad.mu.Unlock()
 }
 
 func (s *c17AdSink) Flush() {
@@ -150,31 +164,37 @@ func (s *c17AdSink) Flush() {
 		ad.mu.Lock()
 		s.hold = nil
 	}
-	defer ad.mu.Unlock()
 	if s.dead {
+		ad.mu.Unlock()
 		return
 	}
 	ad.add(3, int64(s.t), 0)
-	if ad.call(s.t, 3, func() { s.rs.Tick() }) {
-		s.dead = true
-	}
+	rs := s.rs
+	ad.mu.Unlock()
+	dead := ad.call(s.t, 3, func() { rs.Tick() })
+	ad.mu.Lock()
+	s.dead = s.dead || dead
+	ad.mu.Unlock()
 }
 
 func (s *c17AdSink) Close() {
 	ad := s.ad
 	ad.mu.Lock()
-	defer ad.mu.Unlock()
-	defer func() {
+	if s.dead {
 		s.closeCall = true
 		ad.cond.Broadcast()
-	}()
-	if s.dead {
+		ad.mu.Unlock()
 		return
 	}
 	ad.add(4, int64(s.t), 0)
-	if ad.call(s.t, 4, func() { s.rs.Close() }) {
-		s.dead = true
-	}
+	rs := s.rs
+	ad.mu.Unlock()
+	dead := ad.call(s.t, 4, func() { rs.Close() })
+	ad.mu.Lock()
+	s.dead = s.dead || dead
+	s.closeCall = true
+	ad.cond.Broadcast()
+	ad.mu.Unlock()
 }
 
 // waitFor waits (with the adapter lock) until cond holds; false on timeout
@@ -217,10 +237,11 @@ func c17ListenerDemo(secondConnection bool) []int64 {
 	}()
 	line := "<163>1 2019-08-15T15:50:46.866915+03:00 local my-app 123 fn - Something\n"
 
-	cA, err := net.Dial("tcp", addr)
+	cA, err := net.DialTimeout("tcp", addr, 5*time.Second)
 	if err != nil {
 		return nil
 	}
+	cA.SetWriteDeadline(time.Now().Add(5 * time.Second))
 	cA.Write([]byte(line + line)) // the first record is passed on when the start of the second is seen
 	if !ad.waitFor(func() bool { return len(ad.sinks) >= 1 && ad.sinks[0].accepts >= 1 }) {
 		return nil
@@ -239,11 +260,12 @@ func c17ListenerDemo(secondConnection bool) []int64 {
 
 	var cB net.Conn
 	if secondConnection {
-		cB, err = net.Dial("tcp", addr)
+		cB, err = net.DialTimeout("tcp", addr, 5*time.Second)
 		if err != nil {
 			close(holdA)
 			return nil
 		}
+		cB.SetWriteDeadline(time.Now().Add(10 * time.Second))
 		cB.Write([]byte(line + line))
 		if !ad.waitFor(func() bool { return len(ad.sinks) >= 2 && ad.sinks[1].accepts >= 1 }) {
 			close(holdA)
